@@ -49,8 +49,16 @@ def push_forms(d):
 UTF8_BAD = [b"\xc0\x80", b"\xed\xa0\x80", b"\xf4\x90\x80\x80", b"ab\xe2\x82", b"\xff", b"\xe2\x82", b"\xf0\x9f\x98", b"\x80", b"a\xc3", b"\xed\xbf\xbf", b"\xf5\x80\x80\x80", b"\xe0\x9f\x80", b"\xf0\x8f\x80\x80"]
 
 
+# valid UTF-8 that a careless `looks broken` test would reject or mangle: the replacement character itself, BOM, NUL and other
+# controls, line/paragraph separators, noncharacters, first/last private-use and the scalar values next to the surrogate gap
+UTF8_SPECIAL = ["\ufffd", "ok \ufffd ok", "\ufeffbom", "a\x00b", "\x00", "\x7f\x01\x1b[0m", "\u2028\u2029", "\ufffe\uffff", "\ue000\uf8ff", "\ud7ff\ue000",
+                "\U0010ffff\U00010000", "\u0080\u07ff\u0800", "\r\n\t", "\ufffd\ufffd\ufffd"]
+
+
 def payload(r):
     k = r.random()
+    if k < 0.08:
+        return r.choice(UTF8_SPECIAL).encode() * r.randrange(1, 3)
     if k < 0.3:
         return bytes(r.choice(b"abcXYZ 0129;,\"") for _ in range(r.choice([0, 1, 5, 19, 75, 76, 80, 200, 255, 256, 300, 520, 4000])))
     if k < 0.5:
@@ -197,7 +205,7 @@ def boundary(r, exhaustive=False):
             yield "nbhd:" + name, m
     # all 256 leading opcodes x a few tails
     for b in range(256):
-        for tail in (b"", b"\x00", rb(r, 20), b"\x14" + rb(r, 20), push(r, rb(r, 33)) + b"\xac"):
+        for tail in (b"", b"\x00", rb(r, 20), b"\x14" + rb(r, 20), push(r, rb(r, 33)) + b"\xac", b"\x05hello", b"\x4c\x03abc"):
             yield "lead256", bytes([b]) + tail
     # witness versions x program lengths
     for v in [0] + list(range(0x51, 0x61)) + [0x4f, 0x50, 0x61]:
